@@ -11,7 +11,12 @@ func evalIf(node *ast.IfExpr, env *object.Env) object.PanObject {
 		return appendStackTrace(err, node.Source())
 	}
 
-	if isTruthy(cond, env) {
+	truthy, err := truthiness(cond, env)
+	if err != nil {
+		return appendStackTrace(err, node.Source())
+	}
+
+	if truthy {
 		then := Eval(node.Then, env)
 		if err, ok := then.(*object.PanErr); ok {
 			return appendStackTrace(err, node.Source())
